@@ -191,6 +191,8 @@ fn hist_key(h: &[Single]) -> String {
 struct Scenario {
     shards: usize,
     programs: Vec<Vec<usize>>, // indices into OPS
+    /// true: each program is one pipelined chunk sent over its own real connection handler
+    conn: bool,
 }
 
 enum RunResult {
@@ -198,7 +200,91 @@ enum RunResult {
     Stuck(String),
 }
 
+/// Connection-level variant: every program is pipelined over its own real OptimizedConnectionHandler
+/// (all on one state); invocation = start of the run (the bytes are already in the socket), response =
+/// the step at which the reply bytes were written.
+fn run_once_conn(sc: &Scenario, ch: &mut Chooser) -> (RunResult, Vec<String>) {
+    use vh::connsys::{decode_replies, ConnWorld};
+    polex::with_runtime(|rt| {
+        rt.block_on(async {
+            let (k, q) = keys_for(sc.shards);
+            let mut w = ConnWorld::new(sc.shards);
+            let mut streams = Vec::new();
+            let mut progs: Vec<Vec<Argv>> = Vec::new();
+            for (i, p) in sc.programs.iter().enumerate() {
+                let prog: Vec<Argv> = p.iter().map(|o| subst(OPS[*o], &k, &q)[1..].to_vec()).collect();
+                let (st, _) = w.connect(&format!("conn{i}"), redis_sim::production::ConnectionConfig::default());
+                let bytes: Vec<u8> = prog.iter().flat_map(|a| resp::wire(a)).collect();
+                st.push(&bytes);
+                st.close();
+                streams.push(st);
+                progs.push(prog);
+            }
+            let mut seen: Vec<usize> = vec![0; streams.len()];
+            let mut outputs: Vec<Vec<u8>> = vec![Vec::new(); streams.len()];
+            let mut hist: Vec<Single> = Vec::new();
+            let mut steps = 0usize;
+            let mut stuck = None;
+            while !w.sched.clients_done() {
+                if let Some(p) = &w.sched.panicked {
+                    stuck = Some(p.clone());
+                    break;
+                }
+                let en = w.sched.enabled();
+                if en.is_empty() {
+                    stuck = Some("deadlock: no enabled task, a connection is unfinished".to_string());
+                    break;
+                }
+                let pick = if en.len() == 1 { 0 } else { ch.choose(en.len(), if w.sched.last_still_enabled() { Some(0) } else { Some(1) }) };
+                w.sched.step(en[pick]).await;
+                steps += 1;
+                if steps > 10_000 {
+                    stuck = Some("step limit exceeded".into());
+                    break;
+                }
+                let now = w.sched.step_counter.load(Ordering::SeqCst);
+                for (i, st) in streams.iter().enumerate() {
+                    let newb = st.take_written();
+                    if !newb.is_empty() {
+                        outputs[i].extend_from_slice(&newb);
+                        let (replies, _) = decode_replies(&outputs[i]);
+                        for (j, r) in replies.iter().enumerate().skip(seen[i]) {
+                            if j < progs[i].len() {
+                                hist.push(Single { client: i, seq: j, inv: 0, resp: now, cmd: progs[i][j].clone(), reply: resp::show(r) });
+                            }
+                        }
+                        seen[i] = replies.len();
+                    }
+                }
+            }
+            let trace = w.sched.trace_names();
+            if stuck.is_none() {
+                if let Some(p) = &w.sched.panicked {
+                    stuck = Some(p.clone());
+                }
+            }
+            if stuck.is_none() {
+                for (i, p) in progs.iter().enumerate() {
+                    if seen[i] != p.len() {
+                        stuck = Some(format!("deadlock: connection {i} wrote {} replies for {} commands", seen[i], p.len()));
+                    }
+                }
+            }
+            match stuck {
+                Some(e) => (RunResult::Stuck(e), trace),
+                None => {
+                    hist.sort_by_key(|s| (s.client, s.seq));
+                    (RunResult::Done(hist), trace)
+                }
+            }
+        })
+    })
+}
+
 fn run_once(sc: &Scenario, ch: &mut Chooser) -> (RunResult, Vec<String>) {
+    if sc.conn {
+        return run_once_conn(sc, ch);
+    }
     polex::with_runtime(|rt| {
         rt.block_on(async {
             let (k, q) = keys_for(sc.shards);
@@ -243,11 +329,11 @@ fn paths_of(sc: &Scenario) -> String {
 }
 
 fn scenario_json(sc: &Scenario, schedule: &[u32]) -> serde_json::Value {
-    json!({"shards": sc.shards, "programs": sc.programs.iter().map(|p| p.iter().map(|o| OPS[*o]).collect::<Vec<_>>()).collect::<Vec<_>>(), "schedule": schedule})
+    json!({"shards": sc.shards, "conn": sc.conn, "programs": sc.programs.iter().map(|p| p.iter().map(|o| OPS[*o]).collect::<Vec<_>>()).collect::<Vec<_>>(), "schedule": schedule})
 }
 
 /// All multisets of `clients` programs of length `len` over `alphabet` (clients are symmetric).
-fn scenarios(shards: usize, clients: usize, len: usize, alphabet: &[usize]) -> Vec<Scenario> {
+fn scenarios(shards: usize, clients: usize, len: usize, alphabet: &[usize], conn: bool) -> Vec<Scenario> {
     let mut programs: Vec<Vec<usize>> = vec![vec![]];
     for _ in 0..len {
         programs = programs.iter().flat_map(|p| alphabet.iter().map(move |o| { let mut x = p.clone(); x.push(*o); x })).collect();
@@ -255,7 +341,7 @@ fn scenarios(shards: usize, clients: usize, len: usize, alphabet: &[usize]) -> V
     let mut out = Vec::new();
     fn rec(programs: &[Vec<usize>], clients: usize, start: usize, cur: &mut Vec<Vec<usize>>, out: &mut Vec<Scenario>, shards: usize) {
         if cur.len() == clients {
-            out.push(Scenario { shards, programs: cur.clone() });
+            out.push(Scenario { shards, programs: cur.clone(), conn: false });
             return;
         }
         for i in start..programs.len() {
@@ -265,6 +351,9 @@ fn scenarios(shards: usize, clients: usize, len: usize, alphabet: &[usize]) -> V
         }
     }
     rec(&programs, clients, 0, &mut Vec::new(), &mut out, shards);
+    for s in out.iter_mut() {
+        s.conn = conn;
+    }
     out
 }
 
@@ -281,7 +370,7 @@ fn main() {
             .iter()
             .map(|p| p.as_array().unwrap().iter().map(|o| OPS.iter().position(|x| *x == o.as_str().unwrap()).expect("op in alphabet")).collect())
             .collect();
-        let sc = Scenario { shards: r["shards"].as_u64().unwrap() as usize, programs };
+        let sc = Scenario { shards: r["shards"].as_u64().unwrap() as usize, programs, conn: r["conn"].as_bool().unwrap_or(false) };
         let schedule: Vec<u32> = r["schedule"].as_array().unwrap().iter().map(|x| x.as_u64().unwrap() as u32).collect();
         let mut ch = polex::replay_prefix(&schedule);
         let (res, trace) = run_once(&sc, &mut ch);
@@ -323,6 +412,7 @@ fn main() {
     // (label, shards, clients, ops per client, alphabet, preemption bound, delay bound)
     let single: Vec<usize> = vec![0, 1, 3, 4, 5, 6, 9]; // GET SET FG FS PG PS INCR
     let batch: Vec<usize> = vec![7, 8, 5, 6]; // BG BS PG PS
+    let conn_ops: Vec<usize> = vec![0, 1, 2, 9, 10, 11, 12]; // generic GET SET SET INCR APPEND DEL GETSET through the handler
     let mut groups: Vec<(&str, usize, usize, usize, Vec<usize>, u32, u32)> = vec![
         ("2clients x 2ops single-key paths, 2 shards", 2, 2, 2, if thorough { no_eval.clone() } else { single.clone() }, NONE, NONE),
         ("2clients x 2ops batch+pooled paths, 2 shards", 2, 2, 2, batch.clone(), NONE, NONE),
@@ -330,6 +420,8 @@ fn main() {
         ("2clients x 2ops with Lua, 2 shards", 2, 2, 2, lua.clone(), NONE, NONE),
         ("2clients x 2ops, 1 shard", 1, 2, 2, small.clone(), NONE, NONE),
         ("3clients x 2ops, 2 shards", 2, 3, 2, small[..4].to_vec(), 2, if thorough { 4 } else { 2 }),
+        ("CONN: 2 connections x 2 pipelined commands, 2 shards", 2, 2, 2, conn_ops.clone(), NONE, NONE),
+        ("CONN: 3 connections x 1 command, 1 shard", 1, 3, 1, conn_ops.clone(), NONE, NONE),
     ];
     if thorough {
         groups.push(("3clients x 1op, 1 shard", 1, 3, 1, all.clone(), NONE, NONE));
@@ -344,7 +436,7 @@ fn main() {
     let mut exhaustive = true;
     let mut samples = Vec::new();
     for (label, shards, clients, len, alpha, bound, delay_cap) in groups {
-        let scs = scenarios(shards, clients, len, &alpha);
+        let scs = scenarios(shards, clients, len, &alpha, label.starts_with("CONN"));
         let deadline = Instant::now() + per_group;
         // iterative delay bounding: explore everything with <= d non-default picks at blocked points,
         // d = 2,3,4,... up to the group's cap, until the space is exhausted or the time slice ends
